@@ -6,10 +6,11 @@ use crate::print::PrintCtx;
 use crate::uri::params::{Params, CPS};
 use bytesstr::BytesStr;
 use internal::IResult;
-use nom::bytes::complete::{is_not, tag, take_while};
+use nom::bytes::complete::take_while;
 use nom::character::complete::digit1;
 use nom::combinator::{map, map_res, opt};
-use nom::sequence::{delimited, preceded, tuple};
+use nom::error::{ErrorKind, ParseError, VerboseError};
+use nom::sequence::{preceded, tuple};
 use std::fmt;
 use std::str::FromStr;
 
@@ -54,10 +55,7 @@ impl HeaderParse for RetryAfter {
             tuple((
                 map_res(digit1, FromStr::from_str),
                 Params::<CPS>::parse(ctx),
-                opt(preceded(
-                    take_while(whitespace),
-                    delimited(tag("("), is_not(")"), tag(")")),
-                )),
+                opt(preceded(take_while(whitespace), comment)),
             )),
             |(value, params, comment)| RetryAfter {
                 value,
@@ -66,6 +64,44 @@ impl HeaderParse for RetryAfter {
             },
         )(i)
     }
+}
+
+/// `comment = LPAREN *(ctext / quoted-pair / comment) RPAREN`
+///
+/// Returns the text between the outermost parentheses, which may be empty
+/// and may contain nested comments.
+fn comment(i: &str) -> IResult<&str, &str> {
+    let mut depth = 0usize;
+    let mut escaped = false;
+
+    for (idx, c) in i.char_indices() {
+        if idx == 0 {
+            if c != '(' {
+                break;
+            }
+            depth = 1;
+        } else if escaped {
+            escaped = false;
+        } else {
+            match c {
+                '\\' => escaped = true,
+                '(' => depth += 1,
+                ')' => {
+                    depth -= 1;
+
+                    if depth == 0 {
+                        return Ok((&i[idx + 1..], &i[1..idx]));
+                    }
+                }
+                _ => {}
+            }
+        }
+    }
+
+    Err(nom::Err::Error(VerboseError::from_error_kind(
+        i,
+        ErrorKind::TakeUntil,
+    )))
 }
 
 impl ExtendValues for RetryAfter {
